@@ -5,7 +5,8 @@ from common import COQ, BUILD, COQFLAGS, NPROC
 
 HEADER = """From Coq Require Import List ZArith Arith QArith Qcanon.
 Import ListNotations.
-From TT Require Import RingSig Instances SumN Mat Dense Core Struct Index Expr %s.
+From TT Require Import RingSig Instances Dual SumN Mat Dense Core Struct Index Expr %s.
+Notation DZ := (dual Z).
 """
 
 from fractions import Fraction
@@ -16,6 +17,8 @@ class Carrier:
     def __init__(self, name): self.name = name
     def conv(self, arr):
         a = np.asarray(arr).reshape(-1)
+        if self.name == "DZ":
+            raise RuntimeError("dual data are built with dual_lit")
         if self.name == "ZI":
             a = a.astype(np.complex128)
             re_, im = a.real, a.imag
@@ -32,11 +35,13 @@ class Carrier:
             return [int(x) for x in a]
         return [Fraction(float(x)) for x in a]
     def one(self, v):
+        if self.name == "DZ": return "(mkDual (%d)%%Z (%d)%%Z)" % (int(v[0]), int(v[1]))
         if self.name == "ZI": return "(%d,%d)%%Z" % (int(v[0]), int(v[1]))
         if self.name == "Z": return "(%d)%%Z" % int(v)
         f = Fraction(v)
         return "(qf (%d) %d)" % (f.numerator, f.denominator)
     def lit(self, vals):
+        if self.name == "DZ": return "[" + ";".join("mkDual (%d)%%Z (%d)%%Z" % (int(a), int(b)) for a, b in vals) + "]"
         if self.name == "ZI": return "[" + ";".join("(%d,%d)" % (int(a), int(b)) for a, b in vals) + "]%Z"
         if self.name == "Z": return "[" + ";".join(str(int(v)) for v in vals) + "]%Z"
         return "[" + ";".join("qf (%d) %d" % (Fraction(v).numerator, Fraction(v).denominator) for v in vals) + "]"
@@ -47,7 +52,7 @@ class Carrier:
         if self.name == "Z": return int(v)
         return Fraction(v) if not isinstance(v, float) else Fraction(float(v))
 
-Z, ZI, QC = Carrier("Z"), Carrier("ZI"), Carrier("Qc")
+Z, ZI, QC, DZ = Carrier("Z"), Carrier("ZI"), Carrier("Qc"), Carrier("DZ")
 
 def nlist(vals):
     return "[" + ";".join(str(int(v)) for v in vals) + "]%nat"
